@@ -551,6 +551,57 @@ def hexlify : List Nat → Str
   | [] => []
   | b :: r => hexDigit (b / 16) :: hexDigit (b % 16) :: hexlify r
 
+/-! ## base64Binary (`base64.b64decode(s)` = `binascii.a2b_base64`, non-strict; `base64.b64encode`) -/
+
+/-- `table_a2b_base64`: the sextet of an alphabet character -/
+def b64Val (c : Char) : Option Nat :=
+  if 65 ≤ c.toNat && c.toNat ≤ 90 then some (c.toNat - 65)
+  else if 97 ≤ c.toNat && c.toNat ≤ 122 then some (c.toNat - 71)
+  else if c.isDigit then some (c.toNat + 4)
+  else if c == '+' then some 62
+  else if c == '/' then some 63
+  else none
+
+/-- the loop of `binascii.a2b_base64` (strict_mode = False) with its state `quad_pos`, `leftchar`, `pads`:
+    characters outside the alphabet are skipped; a `=` counts as padding only when at least two characters of
+    the current quad have been seen, and the pad that completes the quad ends the decoding (what follows is
+    ignored); other `=` are skipped; at the end of the input an unfinished quad is an error
+    (`none` = `binascii.Error`: "Incorrect padding" / "number of data characters cannot be 1 more than a multiple of 4") -/
+def a2bLoop : Nat → Nat → Nat → Str → Option (List Nat)
+  | q, _, _, [] => if q == 0 then some [] else none
+  | q, left, pads, c :: cs =>
+    if c == '=' then
+      if 2 ≤ q then
+        (if 4 ≤ q + (pads + 1) then some [] else a2bLoop q left (pads + 1) cs)
+      else a2bLoop q left pads cs
+    else
+      match b64Val c with
+      | none => a2bLoop q left pads cs
+      | some v =>
+        if q == 0 then a2bLoop 1 v 0 cs
+        else if q == 1 then (a2bLoop 2 (v % 16) 0 cs).map ((left * 4 + v / 16) :: ·)
+        else if q == 2 then (a2bLoop 3 (v % 4) 0 cs).map ((left * 16 + v / 4) :: ·)
+        else (a2bLoop 0 0 0 cs).map ((left * 64 + v) :: ·)
+
+/-- `base64.b64decode(s)` for a `str`: `s.encode("ascii")` first (ValueError on a non-ASCII character) -/
+def b64decode (s : Str) : Option (List Nat) :=
+  if s.all (fun c => c.toNat < 128) then a2bLoop 0 0 0 s else none
+
+/-- `table_b2a_base64` -/
+def b64Char (n : Nat) : Char :=
+  if n < 26 then Char.ofNat (65 + n)
+  else if n < 52 then Char.ofNat (71 + n)
+  else if n < 62 then Char.ofNat (n - 4)
+  else if n == 62 then '+' else '/'
+
+/-- `base64.b64encode` (three bytes → four characters, `=` padding) -/
+def b64encode : List Nat → Str
+  | [] => []
+  | [a] => [b64Char (a / 4), b64Char (a % 4 * 16), '=', '=']
+  | [a, b] => [b64Char (a / 4), b64Char (a % 4 * 16 + b / 16), b64Char (b % 16 * 4), '=']
+  | a :: b :: c :: r =>
+    b64Char (a / 4) :: b64Char (a % 4 * 16 + b / 16) :: b64Char (b % 16 * 4 + c / 64) :: b64Char (c % 64) :: b64encode r
+
 /-! ## datatypes -/
 
 inductive Dt
@@ -560,7 +611,7 @@ inductive Dt
   | string | normalizedString | token | language | anyURI
   | date | time | dateTime
   | duration | dayTimeDuration | yearMonthDuration
-  | hexBinary
+  | hexBinary | base64Binary
   deriving DecidableEq, Repr
 
 def Dt.name : Dt → String
@@ -573,17 +624,17 @@ def Dt.name : Dt → String
   | .language => "language" | .anyURI => "anyURI"
   | .date => "date" | .time => "time" | .dateTime => "dateTime"
   | .duration => "duration" | .dayTimeDuration => "dayTimeDuration" | .yearMonthDuration => "yearMonthDuration"
-  | .hexBinary => "hexBinary"
+  | .hexBinary => "hexBinary" | .base64Binary => "base64Binary"
 
 def Dt.all : List Dt :=
   [.integer, .nonPositiveInteger, .negativeInteger, .long, .int, .short, .byte, .nonNegativeInteger,
    .unsignedLong, .unsignedInt, .unsignedShort, .unsignedByte, .positiveInteger, .decimal, .boolean,
    .string, .normalizedString, .token, .language, .anyURI, .date, .time, .dateTime,
-   .duration, .dayTimeDuration, .yearMonthDuration, .hexBinary]
+   .duration, .dayTimeDuration, .yearMonthDuration, .hexBinary, .base64Binary]
 
 /-- which converter the model applies (checked against `Tables.xsdToPython` in Props) -/
 inductive Conv
-  | none | int | decimal | boolean | date | time | dateTime | duration | hex
+  | none | int | decimal | boolean | date | time | dateTime | duration | hex | b64
   deriving DecidableEq, Repr
 
 def Dt.conv : Dt → Conv
@@ -597,11 +648,12 @@ def Dt.conv : Dt → Conv
   | .dateTime => .dateTime
   | .duration | .dayTimeDuration | .yearMonthDuration => .duration
   | .hexBinary => .hex
+  | .base64Binary => .b64
 
 def Conv.tableName : Conv → String
   | .none => "none" | .int => "int" | .decimal => "Decimal" | .boolean => "_parseBoolean"
   | .date => "parse_xsd_date" | .time => "time.fromisoformat" | .dateTime => "datetime.fromisoformat"
-  | .duration => "parse_xsd_duration" | .hex => "_unhexlify"
+  | .duration => "parse_xsd_duration" | .hex => "_unhexlify" | .b64 => "b64decode"
 
 def lookupStr {β : Type} (k : String) : List (String × β) → Option β
   | [] => none
@@ -631,6 +683,7 @@ def castLex (dt : Option Dt) (s : Str) : Option PyVal :=
     | .dateTime => pyDateTimeFromIso s
     | .duration => parseXsdDuration s
     | .hex => (unhexlify s).map .bytes
+    | .b64 => (b64decode s).map .bytes
 
 def inOpt (lo hi : Option Int) (i : Int) : Bool :=
   (match lo with | some l => decide (l ≤ i) | none => true) &&
@@ -672,8 +725,10 @@ def asciiDecode (b : List Nat) : Option Str :=
 def pyLex (v : PyVal) (dt : Option Dt) : Option Str :=
   match v with
   | .bytes b =>
-    -- specific rule (bytes, hexBinary) → hexlify; no generic rule for bytes
-    if dt == some .hexBinary then some (hexlify b) else asciiDecode b
+    -- specific rules (bytes, hexBinary) → hexlify, (bytes, base64Binary) → b64encode; no generic rule for bytes
+    if dt == some .hexBinary then some (hexlify b)
+    else if dt == some .base64Binary then some (b64encode b)
+    else asciiDecode b
   | .str s => some s
   | .bool b => some (boolLex b)
   | .int i => some (intRepr i)
